@@ -193,6 +193,7 @@ type delivery struct {
 type sys struct {
 	f       *fixture
 	allSeq  bool
+	batch   bool // events are packets with two publish entries
 	cancel  context.CancelFunc
 	ps      pubsub.PubSub
 	inj     *ref.WireEnd // harness end of the injecting peer's stream
@@ -204,8 +205,10 @@ type sys struct {
 	history []string
 }
 
-func newSys(f *fixture, allSeq bool) hist.Sys {
-	s := &sys{f: f, allSeq: allSeq, fwd: map[string][]string{}}
+func newSys(f *fixture, allSeq bool) hist.Sys { return newSysB(f, allSeq, false) }
+
+func newSysB(f *fixture, allSeq, batch bool) hist.Sys {
+	s := &sys{f: f, allSeq: allSeq, batch: batch, fwd: map[string][]string{}}
 	ctx, cancel := context.WithCancel(context.Background())
 	s.cancel = cancel
 	lg := logrus.New()
@@ -276,6 +279,18 @@ func (s *sys) observe(peerName string, frame []byte) {
 }
 
 func (s *sys) Enabled() []string {
+	if s.batch {
+		// one packet carrying two publish entries: every ordered pair of letters
+		var out []string
+		for _, a := range s.f.letters {
+			for _, b := range s.f.letters {
+				if a != b {
+					out = append(out, "batch:"+a.name+"+"+b.name)
+				}
+			}
+		}
+		return out
+	}
 	out := make([]string, len(s.f.letters))
 	for i, l := range s.f.letters {
 		out[i] = l.name
@@ -284,6 +299,19 @@ func (s *sys) Enabled() []string {
 }
 
 func (s *sys) Apply(ev string) {
+	if strings.HasPrefix(ev, "batch:") {
+		var msgs []*peer.SignedMsg
+		for _, n := range strings.Split(strings.TrimPrefix(ev, "batch:"), "+") {
+			l := s.f.byName[n]
+			s.history = append(s.history, n)
+			if !l.honest || l.chanID != ch1 {
+				statRejected.Add(1)
+			}
+			msgs = append(msgs, l.msg)
+		}
+		s.inj.Write(ref.Frame(mustMarshal(&floodsub.Packet{Publish: msgs})))
+		return
+	}
 	s.history = append(s.history, ev)
 	if l := s.f.byName[ev]; !l.honest || l.chanID != ch1 {
 		statRejected.Add(1)
@@ -415,6 +443,15 @@ func TestC27(t *testing.T) {
 	resSt := hist.BFS(t, &hist.Config{Name: "floodsub-inject/state-merged", New: func() hist.Sys { return newSys(f, false) },
 		MaxDepth: depthState, Deadline: run.Deadline(), Settle: 250 * time.Millisecond})
 	agg.AddHist(resSt)
+	// (3) packets that carry two publish entries: every ordered pair of letters
+	// in one packet (thorough: every sequence of two such packets)
+	depthBatch := 1
+	if !run.Quick() {
+		depthBatch = 2
+	}
+	resB := hist.BFS(t, &hist.Config{Name: "floodsub-inject/two-entries-per-packet", New: func() hist.Sys { return newSysB(f, true, true) },
+		MaxDepth: depthBatch, Deadline: run.Deadline(), Settle: 250 * time.Millisecond})
+	agg.AddHist(resB)
 	agg.Finish(false)
 	if run.NViolations() == 0 && (statDelivered.Load() == 0 || statForwarded.Load() == 0 || statRejected.Load() == 0) {
 		evid.Fatal("vacuous: %d handler invocations, %d forwarded publish messages, %d packets the model expects to be dropped", statDelivered.Load(), statForwarded.Load(), statRejected.Load())
